@@ -257,6 +257,30 @@ def _header_roundtrips(py7zr, ai, R, tier, ev):
         ms.packinfo.digestdefined = [True]
         ms.packinfo.enable_digests = True
         ms.unpackinfo.folders[0].unpacksizes = [total]
+        counts = [nstream]
+        if ci % 2 == 1:
+            # several folders, folders WITHOUT streams among them (first, between, last): counts, sizes and digests must come back unshifted
+            import copy
+            nf = R.choice([2, 3, 4])
+            cuts = sorted(R.randrange(0, nstream + 1) for _ in range(nf - 1))
+            counts = [b - a for a, b in zip([0] + cuts, cuts + [nstream])]
+            if ci % 4 == 1 and nstream >= 2:
+                counts = [0] + [nstream - sum(counts[2:]) if len(counts) > 2 else nstream] + counts[2:]      # a stream-less folder first, a solid one next
+                counts = counts if sum(counts) == nstream else [0, nstream]
+            f0 = ms.unpackinfo.folders[0]
+            folders, at = [], 0
+            for cnt in counts:
+                fo = copy.deepcopy(f0)
+                fo.unpacksizes = [sum(sizes[at:at + cnt])]
+                at += cnt
+                folders.append(fo)
+            ms.unpackinfo.folders = folders
+            ms.unpackinfo.numfolders = len(folders)
+            ms.substreamsinfo.num_unpackstreams_folders = list(counts)
+            ms.packinfo.numstreams = len(folders)
+            ms.packinfo.packsizes = [R.choice(big) >> 4 for _ in folders]
+            ms.packinfo.crcs = [R.getrandbits(32) for _ in folders]
+            ms.packinfo.digestdefined = [True] * len(folders)
         files = []
         si = 0
         for i in range(nfiles):
@@ -305,7 +329,8 @@ def _header_roundtrips(py7zr, ai, R, tier, ev):
                 fld("packsizes", [le8(x) for x in ms.packinfo.packsizes], [le8(x) for x in ms2.packinfo.packsizes])
                 fld("packcrc", [le8(x) for x in ms.packinfo.crcs], [le8(x) for x in ms2.packinfo.crcs])
                 fld("unpacksizes", [le8(x) for x in sizes], [le8(x) for x in (ms2.substreamsinfo.unpacksizes or [f.get_unpack_size() for f in ms2.unpackinfo.folders])])
-                fld("folderunpack", [le8(total)], [le8(x) for x in ms2.unpackinfo.folders[0].unpacksizes])
+                fld("folderunpack", [le8(fo.unpacksizes[-1]) for fo in ms.unpackinfo.folders], [le8(fo.unpacksizes[-1]) for fo in ms2.unpackinfo.folders])
+                fld("counts", list(counts), list(ms2.substreamsinfo.num_unpackstreams_folders))
                 fld("digests", [le8(x) for x in crcs], [le8(x) for x in ms2.substreamsinfo.digests])
                 fld("numfiles", [len(files)], [len(h2.files_info.files)])
                 for a, b in zip(files, h2.files_info.files):
